@@ -55,6 +55,7 @@ func VerifH_SYS_C16() {
 	budget := verifParam("faults", 1)
 	b := &vbroker{budget: budget, stamp: true, silentConn: -1}
 	b.maxDials = 2*budget + 4
+	b.allowWriteErr = true // a fault may also be a failing Write (of CONNECT, PUBLISH or PINGREQ)
 	verifSetRand(100)
 	unit := time.Second
 	if !verifSymbolic() {
@@ -90,6 +91,11 @@ func VerifH_SYS_C16() {
 		defer verifUnlock()
 		for ci := range b.conns {
 			checkC16Conn(b, ci, discOn)
+			// the reported error is what really ended the connection: a ping timeout is reported only for a
+			// connection whose peer actually stopped answering (cuts and write errors are not ping timeouts)
+			if e := b.clients[ci].Err(); e != nil && errors.Is(e, ErrPingTimeout) {
+				verifAssert(b.silentAt[ci] >= 0, "C16.ping_timeout_only_when_peer_silent")
+			}
 			// C13 (b): a connection whose peer went silent is closed and replaced within interval+timeout
 			if b.silentAt[ci] >= 0 {
 				verifReach("silent-peer")
